@@ -182,6 +182,46 @@ def run_oco(case, cap):
   return dict(steps=steps, p=2, b=1.0, k=ell - 1, n=d)
 
 
+def run_ds_opt(case):
+  """Distributed Shampoo with frequent_directions through the public API (roots run under vmap, so
+  no SVD capture): after every update the packed preconditioners are unpacked."""
+  import jax.numpy as jnp
+  from precondition import distributed_shampoo as ds
+  rng = common.SplitMix64(case["seed"])
+  d0, d1, k, T, b = case["d0"], case["d1"], case["k"], case["T"], case["b"]
+  hist = gen_history(rng, d0, d1, T, case["hist"], k, None)
+  opt = ds.distributed_shampoo(
+      0.125, block_size=64, beta2=b, matrix_epsilon=case["ridge"], compression_rank=k,
+      frequent_directions=True, reuse_preconditioner=True, batch_axis_name=None,
+      graft_type=ds.GraftingType.SGD, best_effort_shape_interpretation=False,
+      start_preconditioning_step=1, preconditioning_compute_steps=1, statistics_compute_steps=1,
+      exponent_override=case.get("expo", 0), inverse_failure_threshold=0.1)
+  params = {"w": jnp.ones((d0, d1), jnp.float32)}
+  state = opt.init(params)
+  per_axis = [[], []]
+  prev_l0 = [0.0, 0.0]
+  p_exp = case.get("expo", 0) or 4
+  for g in hist:
+    gj = jnp.asarray(g, jnp.float32)
+    upd, state = opt.update({"w": gj}, state, params)
+    pcs = state.stats["w"].preconditioners
+    if len(pcs) != 2:
+      raise RuntimeError("expected 2 preconditioners, got %d" % len(pcs))
+    for ax in (0, 1):
+      d = (d0, d1)[ax]
+      V, l, inv, const, tail, hz = ds._fd_low_rank_unpack(pcs[ax], k)
+      Vn = np.asarray(V, np.float64)
+      G = np.moveaxis(np.asarray(g, np.float64), ax, 0).reshape(d, -1)
+      eps_r = float(np.float32(case["ridge"]) * np.maximum(np.float32(prev_l0[ax]), np.float32(1e-6))) \
+          if case["ridge"] > 0 else 0.0
+      per_axis[ax].append(dict(G=mat(G), F=[], U=[], s=[], V=[fl(Vn[:, j]) for j in range(k)], l=fl(l),
+                               t=float(tail), inv=fl(inv), const=float(const), epsR=eps_r,
+                               eps_abs=0.0, eps_rel=0.0, finite_update=bool(np.all(np.isfinite(np.asarray(upd["w"]))))))
+      prev_l0[ax] = float(np.asarray(l)[0])
+  b32 = float(np.float32(b)) if b != 1 else 1.0
+  return dict(axes=[dict(steps=per_axis[0], n=d0), dict(steps=per_axis[1], n=d1)], p=p_exp, b=b32, k=k)
+
+
 def run(payload):
   import jax
   import jax.numpy as jnp
@@ -192,12 +232,20 @@ def run(payload):
     for case in payload["cases"]:
       try:
         with jax.disable_jit():
-          if case["impl"] == "ds":
+          if case["impl"] == "ds_opt":
+            r = None
+          elif case["impl"] == "ds":
             r = run_ds(case, cap)
           elif case["impl"] == "tf":
             r = run_tf(case, cap)
           else:
             r = run_oco(case, cap)
+        if case["impl"] == "ds_opt":
+          cap.uninstall()           # the optimizer traces its roots under jit/vmap: no capture
+          try:
+            r = run_ds_opt(case)    # jit enabled: the optimizer's own code path
+          finally:
+            cap.install(jnp)
         r["case"] = case
         out.append(r)
       except Exception as e:  # pylint: disable=broad-except
